@@ -217,6 +217,41 @@ def binMatrix (c : Compact) : Option (Mat × Nat × Nat) :=
 def partners (c : Compact) (j : Nat) : List Row :=
   (c.pairs.filter (fun p => p.1 == j)).filterMap (fun p => c.S[p.2]?)
 
+/-! ## collapser functions in effect, histories of calls -/
+
+/-- python `d[k] = v` on an insertion-ordered dict -/
+def upsert {α : Type} : List (String × α) → String → α → List (String × α)
+  | [], k, v => [(k, v)]
+  | (k', v') :: d, k, v => if k' = k then (k, v) :: d else (k', v') :: upsert d k v
+
+/-- `{**defaults, **user}`: a user entry replaces the default of the same name in place, new
+names are appended; built afresh in every call (no module-level state) -/
+def mergeCollapser {α : Type} (defaults user : List (String × α)) : List (String × α) :=
+  user.foldl (fun d kv => upsert d kv.1 kv.2) defaults
+
+def defaultNames : List String := ["mean", "std", "number"]
+
+/-- the suffixes of the `<var>_<name>` variables a call produces, in order -/
+def outNames (user : List String) : List String :=
+  (mergeCollapser (defaultNames.map (fun n => (n, false))) (user.map (fun n => (n, true)))).map Prod.fst
+
+/-- one `collapse(data, reference, collapser)` call: the dataset, the flattened width of the
+collapsed group, whether the second group is the reference, the names of the user collapsers -/
+structure Call where
+  data : Compact
+  w : Nat
+  second : Bool
+  user : List String
+
+def runCall (c : Call) : Except Err Collapsed × List String :=
+  (collapse (if c.second then swap c.data else c.data) c.w, outNames c.user)
+
+/-- a history of calls in one process: there is no state to thread through -/
+def runHistory (h : List Call) : List (Except Err Collapsed × List String) := h.map runCall
+
+#guard outNames [] == ["mean", "std", "number"]
+#guard outNames ["sum", "mean", "first", "sum"] == ["mean", "std", "number", "sum", "first"]
+
 /-! ## expand -/
 
 /-- one row per pair: (primary values, secondary values); `none` = IndexError -/
